@@ -346,6 +346,21 @@ hooks did not replace is kept as it is; `inplace` stays falsy): the ordinary swa
 def swapSD (h : Heap) (m : MId) (p : List (Name × PTree)) : Except (Err × Heap) (Heap × List (Name × PTree)) :=
   swap h m (pruneEmpty p)
 
+/-- the load-state-dict pre-hooks seen as one function of the flattened key (outermost name first) and the tensor; followed by
+`convert_type`: an entry the hooks left alone keeps its object, a replaced one is re-wrapped in the class of the original leaf -/
+def applyHooks (hk : List Name → Tn → Tn) : List Name → List (Name × PTree) → List (Name × PTree)
+  | _, [] => []
+  | pre, (k, .leaf t) :: r =>
+    let x := hk (pre ++ [k]) t
+    (k, .leaf (if x = t then t else { x with isParam := t.isParam })) :: applyHooks hk pre r
+  | pre, (k, .node es) :: r => (k, .node (applyHooks hk (pre ++ [k]) es)) :: applyHooks hk pre r
+
+/-- `_to_module(use_state_dict=True)` with load-state-dict pre-hooks. The with-block inverts it by *the same call* on the
+swap (`_reverse_to_module` passes the same keyword arguments), so the hooks run a second time, on the module's own tensors. -/
+def swapSDHook (hk : List Name → Tn → Tn) (h : Heap) (m : MId) (p : List (Name × PTree)) :
+    Except (Err × Heap) (Heap × List (Name × PTree)) :=
+  swap h m (pruneEmpty (applyHooks hk [] p))
+
 /-! ### spec side: what torch's `named_parameters` / `named_buffers` enumerate -/
 
 /-- leaves of a tensordict with their full key, in `items(True, True)` order -/
